@@ -69,7 +69,7 @@ def names(draw, trailing_backslash_ok):
 
 @st.composite
 def cases(draw, trailing_backslash_ok):
-    count = draw(st.integers(1, 6))
+    count = draw(st.sampled_from([0, 1, 1, 2, 3, 4, 5, 6]))   # none at all too
     kinds = draw(st.lists(st.sampled_from(['plain', 'plain', 'mz', 'matrix']),
                           min_size=count, max_size=count))
     if count >= 3 and draw(st.booleans()):
